@@ -27,7 +27,7 @@ Record script := {
   in_recv : list initem;
   in_send_fail : option (nat * Z);          (* the k-th Incoming.Send (and later ones) fails with this code *)
   open_res : openres;
-  out_send_fail : option (nat * sres);      (* the k-th outgoing.Send (and later ones) returns EOF / an error *)
+  out_send_fail : option (nat * err);       (* the k-th outgoing.Send (and later ones) returns EOF / an error *)
   out_recv : list (nat * bool * outitem);   (* (requests needed, half-close needed, item) *)
   ctx_kind : ctxkind;                       (* which context event the environment may fire, at any time *)
   in_aware : bool; out_aware : bool         (* do the adapters honour the context *)
@@ -100,7 +100,7 @@ Section LTS.
   Definition call_out_send (m : Z) (s : state) : list (sres * state) :=
     if (0 <? closed s)%nat then [(SErrR 1, s)] else
     (match out_send_fail sc with
-     | Some (k, r) => if (k <=? n_out_sends s)%nat then [(r, s <| n_out_sends := S (n_out_sends s) |>)]
+     | Some (k, r) => if (k <=? n_out_sends s)%nat then [(match r with EEof => SEofR | ESt e => SErrR e end, s <| n_out_sends := S (n_out_sends s) |>)]
                       else [(SOk, s <| n_out_sends := S (n_out_sends s) |> <| sent_out := sent_out s ++ [m] |>)]
      | None => [(SOk, s <| n_out_sends := S (n_out_sends s) |> <| sent_out := sent_out s ++ [m] |>)]
      end) ++
@@ -119,11 +119,12 @@ Section LTS.
 
   (* ---- threads ---- *)
   Definition env_steps (s : state) : list (label * state) :=
-    match fired s, mp s, ctx_kind sc with
-    | CtxNone, MRet _, _ => []
-    | CtxNone, _, CtxNone => []
-    | CtxNone, _, k => [(LEnv, s <| fired := k |>)]
-    | _, _, _ => []
+    (* the call context fires at most once, and only while it can still matter: before Main's own cancel() *)
+    if cancel_called s then [] else
+    match fired s, ctx_kind sc with
+    | CtxNone, CtxNone => []
+    | CtxNone, k => [(LEnv, s <| fired := k |>)]
+    | _, _ => []
     end.
 
   Definition wg (s : state) : nat :=
